@@ -32,10 +32,22 @@ def known_findings():
     return kf
 
 
-def finding_for(pid, obligation, kf):
+def finding_for(pid, ob, kf):
+    """A listed finding matches one obligation instance AND (if given) the failing check text, so a
+    different failure of the same obligation is still a violation."""
+    name = ob["name"]
     for f in kf.get("findings", []):
-        if f["property"] == pid and (obligation == f["obligation"] or obligation.startswith(f["obligation"] + "::")):
-            return f
+        props = f.get("properties") or [f.get("property")]
+        if pid not in props:
+            continue
+        if not (name == f["obligation"] or name.startswith(f["obligation"] + "::")):
+            continue
+        chk = f.get("check")
+        if chk:
+            texts = ob.get("failed_checks") or [ob.get("detail", "")]
+            if not texts or not all(chk in t for t in texts):
+                continue
+        return f
     return None
 
 
@@ -151,7 +163,7 @@ def main(argv):
     for ob in obligations:
         if ob["status"] != "failed":
             continue
-        f = finding_for(pid, ob["name"], kf)
+        f = finding_for(pid, ob, kf)
         if f is not None:
             findings_hit.append((f, ob))
             ob["status"] = "known-finding"
@@ -170,7 +182,16 @@ def main(argv):
             "replay_result": ob.get("replay_result"),
         }
         suffix = ""
-        if ob.get("counterexample") is None:
+        if ob["engine"].startswith("kani") and ob.get("harness"):
+            if not kani_run.attach_counterexample(ob, REPO, os.path.join(work, "kani")):
+                undecided.append("kani:harness %s: counterexample did not replay on the real code" % ob["harness"])
+                ob["status"] = "undecided"
+                continue
+            payload["counterexample"] = ob.get("counterexample")
+            payload["replayed"] = ob.get("replayed")
+            payload["replay_result"] = ob.get("replay_result")
+            payload["harness"] = ob["harness"]
+        elif ob.get("counterexample") is None:
             # Verus gives no model: try the paired Kani harness for a concrete input
             paired = ob.get("paired_kani")
             found = None
@@ -187,6 +208,7 @@ def main(argv):
         print("VIOLATION property=%s replay=%s%s" % (pid, path, suffix))
         print("  obligation %s [%s]: %s" % (ob["name"], ob["engine"], ob.get("detail", "")[:300]))
         exit_code = 1
+    violations = [o for o in violations if o["status"] == "failed"]
     if undecided and exit_code == 0:
         for u in undecided:
             print("UNDECIDED property=%s %s" % (pid, u))
